@@ -375,3 +375,33 @@ Proof.
   - cbn. unfold u32_ok, wf_label24. repeat split; try lia; try reflexivity. repeat constructor; lia.
   - cbn. unfold u32_ok. repeat split; try lia. repeat constructor; lia.
 Qed.
+
+(* ------------------------------------------------------------------ *)
+(* TUNNEL_ENCAP / PREFIX_SID / BGP-LS attribute: the lossless-or-raw wrapper   *)
+From RB Require Import Proofs.ApiGuard.
+
+Theorem C17_noncore_roundtrip_guarded :
+  forall (typed_of_bytes bytes_of_typed : N -> list N -> res (option (list N))) a x,
+    wf_attr a -> core_code (a_code a) = false ->
+    to_api_nc typed_of_bytes bytes_of_typed a = Ok x ->
+    from_api_nc bytes_of_typed x = Ok (Some (canon_of a)).
+Proof. exact guarded_roundtrip. Qed.
+
+Theorem C17_noncore_typed_from_api_wf :
+  forall (bytes_of_typed : N -> list N -> res (option (list N))) c t a,
+    c = TUNNEL_ENCAP \/ c = LS \/ c = PREFIX_SID ->
+    (forall b, bytes_of_typed c t = Ok (Some b) -> bytes_ok b) ->
+    from_api_nc bytes_of_typed (NcTyped c t) = Ok (Some a) -> wf_attr a.
+Proof. exact from_api_nc_typed_wf. Qed.
+
+(* non-vacuity: a lossless converter keeps the typed form, a lossy one falls back to raw *)
+Example guarded_examples :
+  let a := mkAttr PREFIX_SID 192 (DBin [1; 0; 7; 0; 0; 0; 0; 0; 0; 5]) in
+  wf_attr a /\ core_code (a_code a) = false
+  /\ to_api_nc (fun _ b => Ok (Some b)) (fun _ t => Ok (Some t)) a = Ok (NcTyped PREFIX_SID [1; 0; 7; 0; 0; 0; 0; 0; 0; 5])
+  /\ to_api_nc (fun _ b => Ok (Some (firstn 3 b))) (fun _ t => Ok (Some t)) a
+     = Ok (NcUnknown 192 PREFIX_SID [1; 0; 7; 0; 0; 0; 0; 0; 0; 5]).
+Proof.
+  cbn zeta. split; [|split; [reflexivity|split; vm_compute; reflexivity]].
+  repeat split; cbn; try lia. repeat constructor; lia.
+Qed.
